@@ -130,8 +130,8 @@ func runC02(c *Ctx) {
 			{Name: "first mismatching entry", Match: func(u *an.Unit, s *an.Site) bool { return u.C.Term(s.Ret.Results[0]) == "ne.Index" }, Guard: "!recv.matchTerm(ne.Index, ne.Term)"},
 			{Name: "no conflict", Match: func(u *an.Unit, s *an.Site) bool { return u.C.Term(s.Ret.Results[0]) == "0" }},
 		}, 2)
-		rng := u.Match(an.M{}.Range())
-		r.Check("C02-L3", "raft.(*raftLog).findConflict: scans the offered entries in order", "", len(rng) == 1 && u.C.Term(rng[0].Rng.X) == "p0", "")
+		lc := u.LoopCollections() // either loop form
+		r.Check("C02-L3", "raft.(*raftLog).findConflict: scans the offered entries in order", "", len(lc) == 1 && lc[0] == "p0", fmt.Sprint(lc))
 	}
 	if u := c.unit("C02-L3", "raft.(*raftLog).matchTerm"); u != nil {
 		r.Returns("C02-L3", u, []an.ReturnClass{
